@@ -217,8 +217,10 @@ pub async fn run_tls_case(c: &TlsCase) -> TlsOutcome {
     // the protocol service is not ready at once in two cases of three (decided by the case itself, so a replay agrees)
     let pending_polls = (hash_of(&c.to_json().to_string()) % 3) as usize;
     PROTOCOL_PENDING_POLLS.with(|p| p.set(pending_polls));
+    BUILDER_TLS_BEFORE_BODY.with(|p| p.set(hash_of(&c.to_json().to_string()) % 2 == 1));
     let client = build_client(routes.clone(), None, Some(client_tls(c.client_alpn)), None);
     PROTOCOL_PENDING_POLLS.with(|p| p.set(0));
+    BUILDER_TLS_BEFORE_BODY.with(|p| p.set(false));
     let uri = if c.from_parts {
         http::Uri::builder().scheme(c.scheme).authority(c.authority()).path_and_query(format!("/r/4242/{MARKER}?m={MARKER}")).build().map_err(|e| e.to_string())
     } else {
@@ -583,6 +585,72 @@ pub async fn run_tls_sequence(schemes: &[&'static str], host: &'static str, h2: 
     problems
 }
 
+/// One pooled client that talks to many origins (more than a bounded key table may keep): an idle connection of the
+/// first origin stays in the pool while `fillers` requests to NEW origins with the opposite kind of scheme follow. None
+/// of them has a route, so each must fail without a byte written anywhere; a secure one must never appear in the clear,
+/// a plain one must never be answered (it could only have travelled on the pooled TLS connection of the first origin).
+pub async fn run_tls_key_pressure(first_secure: bool, fillers: usize) -> Vec<(String, String)> {
+    let mut problems = Vec::new();
+    let log = Arc::new(Log::default());
+    let gates = Gates::default();
+    let routes = Routes { log: log.clone(), tap_enabled: true, ..Default::default() };
+    let alpn: &[&str] = &["http/1.1"];
+    let plain = spawn_server(ServerSpec { id: 0, proto: Proto::Auto, net: Net::Duplex(16_384), tls: None, graceful: false, sni_validation: false }, log.clone(), gates.clone()).await;
+    let secure_srv = spawn_server(ServerSpec { id: 1, proto: Proto::Auto, net: Net::Duplex(16_384), tls: Some(Arc::new(server_tls("good", alpn))), graceful: false, sni_validation: false }, log.clone(), gates.clone()).await;
+    routes.add("plain|a.test", plain.target.clone());
+    routes.add("tls|b.test", secure_srv.target.clone());
+    let client = build_client(routes.clone(), Some(hyperdriver::client::PoolConfig::default()), Some(client_tls(alpn)), None);
+    let send = |uri: String, id: u64, marker: String| {
+        let c2 = client.clone();
+        async move {
+            let req = Request::builder().method("POST").uri(uri).version(http::Version::HTTP_11).header("x-id", id).header("x-marker", marker.as_str()).body(ChunkBody::new(marker.clone().into_bytes(), 0, 0)).unwrap();
+            let h = tokio::spawn(async move {
+                let resp = c2.oneshot(req).await.map_err(|e| format!("{e:?}"))?;
+                let st = resp.status().as_u16();
+                let _ = resp.into_body().collect().await;
+                Ok::<_, String>(st)
+            });
+            match tokio::time::timeout(Duration::from_secs(3600), h).await {
+                Err(_) => Err("TIMEOUT".to_string()),
+                Ok(Err(j)) => Err(format!("PANIC {j}")),
+                Ok(Ok(r)) => r,
+            }
+        }
+    };
+    let first = if first_secure { "https://b.test" } else { "http://a.test" };
+    let m0 = format!("{MARKER}-first");
+    if let Err(e) = send(format!("{first}/r/6000/{m0}?m={m0}"), 6000, m0.clone()).await {
+        problems.push(("key-pressure:first-request-failed".to_string(), format!("{first}: {e}")));
+    }
+    for _ in 0..3 {
+        tokio::time::sleep(Duration::from_millis(2)).await;
+    }
+    let filler_scheme = if first_secure { "http" } else { "https" };
+    for k in 0..fillers {
+        let id = 7000 + k as u64;
+        let marker = format!("{MARKER}-filler-{k}");
+        let res = send(format!("{filler_scheme}://k{k}.test/r/{id}/{marker}?m={marker}"), id, marker.clone()).await;
+        let in_clear = routes.taps.lock().unwrap().iter().any(|(_, t)| contains(&t.lock().unwrap().written, marker.as_bytes()));
+        let handled = log.handled.lock().unwrap().iter().any(|h| h.header_id == Some(id));
+        if !first_secure && (in_clear || handled) {
+            problems.push(("key-pressure:plaintext-request-on-secure-scheme".to_string(), format!("after {first} and {k} requests to other origins, the request to https://k{k}.test travelled in the clear (handled by a server: {handled}) -> {res:?}")));
+            break;
+        }
+        if first_secure && (res.is_ok() || handled) {
+            problems.push(("key-pressure:plain-request-rode-a-pooled-tls-connection".to_string(), format!("after {first} and {k} requests to other origins, the request to http://k{k}.test (no such origin) was answered: {res:?}")));
+            break;
+        }
+        if matches!(&res, Err(e) if e.starts_with("PANIC") || e == "TIMEOUT") {
+            problems.push(("key-pressure:request-panicked-or-hung".to_string(), format!("{filler_scheme}://k{k}.test -> {res:?}")));
+            break;
+        }
+    }
+    drop(client);
+    plain.join.abort();
+    secure_srv.join.abort();
+    problems
+}
+
 // ---------------------------------------------------------------------------------------------
 // C20 end to end
 // ---------------------------------------------------------------------------------------------
@@ -791,6 +859,23 @@ pub fn run(args: &Args) -> Report {
             let replay = json!({"engine": "tlsworld", "sequence": schemes, "host": host, "h2": h2});
             p.eval(Some(hash_of(&format!("{replay}"))));
             p.count("sequences_through_one_pooled_client", 1);
+            for (sig, msg) in problems {
+                p.violation(sig, format!("{msg} | {replay}"), replay.clone());
+            }
+        });
+        rep.merge(part);
+    }
+    if args.wants("C12") && args.replay.is_none() {
+        let n = 1300usize;
+        let part = crate::report::parallel(args.threads, 2, "tlsworld", |i, r| {
+            let first_secure = i == 1;
+            let rt = tokio::runtime::Builder::new_current_thread().enable_all().start_paused(true).build().unwrap();
+            let problems = rt.block_on(run_tls_key_pressure(first_secure, n));
+            let p = r.prop("C12", RULE12);
+            let replay = json!({"engine": "tlsworld", "key_pressure": {"first_secure": first_secure, "fillers": n}});
+            p.eval(Some(hash_of(&format!("{replay}"))));
+            p.count("key_pressure_sequences", 1);
+            p.count("key_pressure_origins", n as u64);
             for (sig, msg) in problems {
                 p.violation(sig, format!("{msg} | {replay}"), replay.clone());
             }
